@@ -13,6 +13,7 @@ fixed('C08', '703e765', "is_parent_around used '<': a pre-terminal whose adoptin
 fixed('C09', '1320342', 'print_banner() began with a bare print(): first stdout line of every run was empty', {'cmd': 'pcfg_guesser.py -r <any> -n 3'}, 'F-C09')
 fixed('C12', 'e621645', "generation loop treated 'keypress thread not alive' as quit: EOF, /dev/null, closed stdin or an exception in the status printer truncated the run; with the thread parked between should_exit=True and return a Markov level was abandoned while the run went on",
       {'stdin': ['pipe at EOF', '/dev/null', 'closed fd 0'], 'observed': '48 / 48 / 0 of 4011 guesses'}, 'F-C12')
+fixed('C12', '916fce6', "keypress() returned on an exception from the status report before looking at the input: a 'q' typed while a restored OMEN remainder is replayed (status report indexes grammar['M'] with a level number -> IndexError) never set should_exit", {'history': 'quit inside a Markov level, --load, q during the replayed remainder', 'ruleset': 'fewer entries in pcfg_omen_prob.txt than the interrupted level number'}, 'F-C12b')
 fixed('C14', 'bca71a0', '--skip_brute on a ruleset without an M structure loaded zero base structures (file pointer not rewound when no M line was found)', {'ruleset': 'trained with coverage 1, or edited to drop M'}, 'F-C14a')
 fixed('C14', '5e0b064', '--load read rule name / skip_brute / skip_case from the .sav only after the grammar had been built, so saved flags were ignored', {'history': 'run with --skip_brute --all_lower, quit, --load without the flags'}, 'F-C14b')
 fixed('C15', '8d78b0c', 'omen_guess_number was never removed from the save config: a later quit/resume outside a Markov level replayed the stale .omn remainder', {'cuts': [4, 4]}, 'F-C15a')
@@ -26,6 +27,8 @@ fixed('C19', '5f6218e', "codec readline() also splits on VT/FF/FS/GS/RS/NEL/LS/P
 fixed('C10', '62a93ce', '_find_first_object scanned range(0, max_level): a model whose only lengths / initial n-grams sit at level 10 raised instead of enumerating', {'model': 'all LN or all IP at level 10'}, 'F-C10')
 fixed('C04', 'b0251cf', 'OMEN levels with equal pcfg_omen_prob were merged into one group of which only values[0] was ever generated', {'pcfg_omen_prob.txt': '3\\t0.0 / 5\\t0.0'}, 'F-C04')
 fixed('C02', 'b0251cf', 'same defect seen as language loss: the merged levels were never emitted', {'pcfg_omen_prob.txt': 'two levels with equal probability'}, 'F-C04')
+
+finding('C15', 'final-markov-preterminal', 'quit inside the Markov level of the FINAL pre-terminal of the run: queue is empty afterwards, the "Done" path returns without saving, --load restarts the session from the beginning (F-C15b)', {'ruleset': 'base structures D1/M/O1 where the least probable pre-terminal is an OMEN level', 'cut': 'any j inside that level'}, 'F-C15b')
 
 json.dump(F, open('/verif/known_findings.json', 'w'), indent=1)
 print(len(F), 'entries')
